@@ -28,6 +28,18 @@ The translation is SHALLOW and TYPE DIRECTED (a partial evaluation of the method
   sum(E for k, v in P.terms())   sumTerms (fun k v => E) P  (fold of `+` from `ZFilter([0])`: `ALV/Model/C05Vocab.lean`)
   raise ValueError(..)   .error .value       a and b / a or b / not a       && / || / !  on Bool, ∧ / ∨ / ¬ on comparisons
 
+The FILTER LIST classes are translated by shape (a fixed statement skeleton per function; conditions, comparison operators,
+constants, indices, `operator.<op>`, the generator's item, the raised exception class are read from the source):
+
+  FilterList.__init__    `if <test>: filters = filters[i]` + `self.extend(filters)`  ->  if <test> then extendItem filters i else
+                         extendTuple filters; <test> over `len(filters) <cmp> n`, `callable(filters[i])`, `isinstance(filters[i], Iterable)`
+  FilterList.__eq__/__ne__   `type(x) ==/!= type(y)` -> decide (k = k') / (k ≠ k'); `list.__eq__/__ne__(x, y)` -> FLs.eq / FLs.listNe
+  reduce(operator.<op>, (<item> for filt in self.callables))   reduceGen <op> (parts.map …), `parts` = the lazily computed
+                         `(filt.numpoly, filt.denpoly)` of the parts; <item> is filt.numpoly / filt.denpoly / ZFilter(<poly>, <poly>)
+  try: … except AttributeError: raise AttributeError(..)      reraiseAttribute (…)
+  self.is_linear()       the input `linear`            self._sum_filter().numpoly   bind of the translated `_sum_filter`
+  (vocabulary: `ALV/Model/C05ListVocab.lean`)
+
 Anything else inside a translated function is a `TranslationError` (= broken obligation, the last committed file stays).
 Local variable names are normalised (x1, x2, …), comments / docstrings / messages of exceptions do not reach the output."""
 import ast
@@ -575,13 +587,16 @@ TRANSLATED = [
     "ZFilter.__sub__ (ZFilter / number / foreign)", "ZFilter.__mul__ (ZFilter / number / foreign)",
     "ZFilter.__truediv__ (ZFilter / number / foreign)", "ZFilter.__pow__ (int exponent; recursion with fuel)",
     "ZFilter.__call__ (ZFilter argument: substitution)", "module level z = ZFilter({-1: 1})",
+    "FilterList.__init__ (the argument rule; cls(*filters))", "FilterList.__eq__", "FilterList.__ne__",
+    "CascadeFilter.numpoly", "CascadeFilter.denpoly", "ParallelFilter._sum_filter", "ParallelFilter.numpoly", "ParallelFilter.denpoly",
 ]
 NOT_TRANSLATED = {
     "LinearFilter.__init__ cast branch (numerator is a LinearFilter)": "modelled by hand (`cast`, `castDiv`): attribute sharing between objects",
     "ZFilter.__pow__ with float / Fraction / complex exponents": "`powSpelled` is a table over number spellings, hand-written and sampled",
     "ZFilter.__call__ with a signal": "`LinearFilter.__call__` builds source text and exec's it: translator T3 of C04",
-    "FilterList.__init__ / callables / __eq__ / __ne__": "`callable()` / `isinstance(_, Iterable)` on arbitrary objects and `list.__eq__` (CPython) have no counterpart in the expression subset; the model is a mutual inductive over object sorts, tied by sampling",
-    "CascadeFilter.__call__ / numpoly / denpoly, ParallelFilter.__call__ / _sum_filter / numpoly / denpoly": "`reduce` over `self.callables` of a nested object: the model functions (`FL.polys`, `FLs.prodP`, `FLs.sumF`) are a structural mutual recursion with accumulators, not the shape of the source; left to the differential tie",
+    "FilterList.callables / is_linear / is_lti / is_causal": "`callable()` / `isinstance` / `hasattr` on arbitrary objects: the sorts of a part (`FL.leaf / num / other / node`) and `FL.linear` are the model's, tied by sampling; the translated polynomial properties take `self.is_linear()` and the parts' polynomial pairs as inputs",
+    "CascadeFilter.__call__ / ParallelFilter.__call__": "signals (`thub`, Stream addition, `*args` / `**kwargs`): `FLs.casCall` / `FLs.parCall` stay hand-written, tied by sampling",
+    "FilterListMeta.__binary__ (list + / * with the class kept)": "`getattr(super(cls, self), dname)`: a reflective call, modelled by `wrap` / `Obj.add` / `Obj.mulInt`",
     "LinearFilter.linearize": "float weights for fractional delays, dictionary accumulation in a loop",
     "AbstractOperatorOverloaderMeta (which dunders are installed for \"+ - * / **\")": "translator T1 of C01",
 }
@@ -793,6 +808,219 @@ class Translator:
         u = Unit(self, "z", {}, "zf")
         self.emit("z", "z = " + ast.unparse(zs[0].value), "", "Except PyErr (ALV.C05.ZF α)", u.stmts([ast.Return(value=zs[0].value)]))
 
+    # --- the filter list classes ----------------------------------------------------------------------------
+    PARTS = "(parts : List (Except PyErr (MPoly α × MPoly α)))"
+    PARTS_DOC = "`parts` = the pair `(filt.numpoly, filt.denpoly)` of each `filt in self.callables`, computed when the generator reaches it"
+    CMP = {ast.Eq: "=", ast.NotEq: "≠", ast.Lt: "<", ast.LtE: "≤", ast.Gt: ">", ast.GtE: "≥"}
+
+    @staticmethod
+    def nodoc(body):
+        return [s for s in body if not (isinstance(s, ast.Expr) and isinstance(s.value, ast.Constant))]
+
+    def boolop(self, where, node, atom):
+        """`and` / `or` / `not` over atoms compiled by `atom` (Bool terms)"""
+        if isinstance(node, ast.BoolOp):
+            sym = " && " if isinstance(node.op, ast.And) else " || "
+            return sym.join("(%s)" % self.boolop(where, v, atom) for v in node.values)
+        if isinstance(node, ast.UnaryOp) and isinstance(node.op, ast.Not):
+            return "!(%s)" % self.boolop(where, node.operand, atom)
+        r = atom(node)
+        if r is None:
+            raise TranslationError("%s: unsupported condition %s" % (where, short(node)))
+        return r
+
+    def t_fl_init(self):
+        where = "FilterList.__init__"
+        fn = self.method("FilterList", "__init__")
+        self.plain(fn)
+        a = fn.args
+        if (a.kwarg or a.kwonlyargs or getattr(a, "posonlyargs", None) or a.defaults or a.vararg is None or len(a.args) != 1):
+            raise TranslationError("%s: signature is not (self, *filters)" % where)
+        s, tup = a.args[0].arg, a.vararg.arg
+
+        def index(node):          # filters[i] -> i
+            if (isinstance(node, ast.Subscript) and isinstance(node.value, ast.Name) and node.value.id == tup
+                    and isinstance(node.slice, ast.Constant) and isinstance(node.slice.value, int) and node.slice.value >= 0):
+                return node.slice.value
+            return None
+
+        def atom(node):
+            if (isinstance(node, ast.Compare) and len(node.ops) == 1 and type(node.ops[0]) in self.CMP
+                    and isinstance(node.left, ast.Call) and isinstance(node.left.func, ast.Name) and node.left.func.id == "len"
+                    and len(node.left.args) == 1 and not node.left.keywords and isinstance(node.left.args[0], ast.Name)
+                    and node.left.args[0].id == tup and isinstance(node.comparators[0], ast.Constant)
+                    and isinstance(node.comparators[0].value, int) and node.comparators[0].value >= 0):
+                return "decide (filters.length %s %d)" % (self.CMP[type(node.ops[0])], node.comparators[0].value)
+            if isinstance(node, ast.Call) and isinstance(node.func, ast.Name) and not node.keywords:
+                if node.func.id == "callable" and len(node.args) == 1 and index(node.args[0]) is not None:
+                    return "argTest filters %d Arg.callable" % index(node.args[0])
+                if (node.func.id == "isinstance" and len(node.args) == 2 and index(node.args[0]) is not None
+                        and isinstance(node.args[1], ast.Name) and node.args[1].id == "Iterable"):
+                    return "argTest filters %d Arg.iterable" % index(node.args[0])
+            return None
+
+        body = self.nodoc(fn.body)
+        ok = (len(body) == 2 and isinstance(body[0], ast.If) and not body[0].orelse and len(body[0].body) == 1
+              and isinstance(body[0].body[0], ast.Assign) and len(body[0].body[0].targets) == 1
+              and isinstance(body[0].body[0].targets[0], ast.Name) and body[0].body[0].targets[0].id == tup
+              and index(body[0].body[0].value) is not None
+              and isinstance(body[1], ast.Expr) and isinstance(body[1].value, ast.Call) and not body[1].value.keywords
+              and isinstance(body[1].value.func, ast.Attribute) and body[1].value.func.attr == "extend"
+              and isinstance(body[1].value.func.value, ast.Name) and body[1].value.func.value.id == s
+              and len(body[1].value.args) == 1 and isinstance(body[1].value.args[0], ast.Name) and body[1].value.args[0].id == tup)
+        if not ok:
+            raise TranslationError("%s: not `if <test>: filters = filters[i]` followed by `self.extend(filters)`" % where)
+        test = self.boolop(where, body[0].test, atom)
+        self.defs.append(("filterListInit", where,
+                          "/-- `FilterList.__init__(self, *filters)`: what the new list is extended with (`none`: outside the model) -/\n"
+                          "def filterListInit (filters : List (Arg α)) : Option (FLs α) :=\n  if %s then\n    extendItem filters %d\n"
+                          "  else\n    extendTuple filters" % (test, index(body[0].body[0].value))))
+        self.defs.append(("construct", where,
+                          "/-- `cls(*filters)` for a class `k` of the `FilterList` family: the new object holds what `__init__` extends it "
+                          "with -/\ndef construct (k : Kind) (filters : List (Arg α)) : Option (FL α) :=\n"
+                          "  (filterListInit filters).map (.node k)"))
+
+    def t_fl_eq(self):
+        for meth, lname in (("__eq__", "flEq"), ("__ne__", "flNe")):
+            where = "FilterList." + meth
+            fn = self.method("FilterList", meth)
+            self.plain(fn)
+            s, o = self.params(fn, 2)
+            kind = {s: "k", o: "k'"}
+            items = {s: "a", o: "b"}
+
+            def typeof(node):
+                if (isinstance(node, ast.Call) and isinstance(node.func, ast.Name) and node.func.id == "type" and len(node.args) == 1
+                        and not node.keywords and isinstance(node.args[0], ast.Name) and node.args[0].id in kind):
+                    return kind[node.args[0].id]
+                return None
+
+            def atom(node):
+                if (isinstance(node, ast.Compare) and len(node.ops) == 1 and isinstance(node.ops[0], (ast.Eq, ast.NotEq))
+                        and typeof(node.left) and typeof(node.comparators[0])):
+                    return "decide (%s %s %s)" % (typeof(node.left), self.CMP[type(node.ops[0])], typeof(node.comparators[0]))
+                if (isinstance(node, ast.Call) and isinstance(node.func, ast.Attribute) and isinstance(node.func.value, ast.Name)
+                        and node.func.value.id == "list" and node.func.attr in ("__eq__", "__ne__") and len(node.args) == 2
+                        and not node.keywords and all(isinstance(x, ast.Name) and x.id in items for x in node.args)):
+                    return "%s %s %s" % ({"__eq__": "FLs.eq", "__ne__": "FLs.listNe"}[node.func.attr], items[node.args[0].id],
+                                         items[node.args[1].id])
+                return None
+
+            body = self.nodoc(fn.body)
+            if len(body) != 1 or not isinstance(body[0], ast.Return) or body[0].value is None:
+                raise TranslationError("%s is not one return statement" % where)
+            self.defs.append((lname, where,
+                              "/-- `%s(self, other)` with a filter list `other`: `k`, `a` = class and items of `self`, `k'`, `b` = of "
+                              "`other` -/\ndef %s (k k' : Kind) (a b : FLs α) : Bool :=\n  %s"
+                              % (where, lname, self.boolop(where, body[0].value, atom))))
+
+    def reduce_gen(self, where, node, selfname):
+        """`reduce(operator.<op>, (<elt> for filt in self.callables))` -> (type of the result, Lean term)"""
+        ok = (isinstance(node, ast.Call) and isinstance(node.func, ast.Name) and node.func.id == "reduce" and len(node.args) == 2
+              and not node.keywords and isinstance(node.args[0], ast.Attribute) and isinstance(node.args[0].value, ast.Name)
+              and node.args[0].value.id == "operator" and isinstance(node.args[1], ast.GeneratorExp))
+        if not ok:
+            raise TranslationError("%s: not `reduce(operator.<op>, (<generator>))` without an initial value" % where)
+        gen = node.args[1]
+        g = gen.generators[0]
+        ok = (len(gen.generators) == 1 and not g.ifs and not g.is_async and isinstance(g.target, ast.Name)
+              and isinstance(g.iter, ast.Attribute) and g.iter.attr == "callables" and isinstance(g.iter.value, ast.Name)
+              and g.iter.value.id == selfname)
+        if not ok:
+            raise TranslationError("%s: the generator is not `for filt in self.callables`" % where)
+        var = g.target.id
+
+        def poly(e):
+            if isinstance(e, ast.Attribute) and isinstance(e.value, ast.Name) and e.value.id == var and e.attr in ("numpoly", "denpoly"):
+                return "filt.1" if e.attr == "numpoly" else "filt.2"
+            raise TranslationError("%s: %s is not filt.numpoly / filt.denpoly" % (where, short(e)))
+
+        e = gen.elt
+        if isinstance(e, ast.Call) and isinstance(e.func, ast.Name) and e.func.id == "ZFilter" and len(e.args) == 2 and not e.keywords:
+            ty, item = "zf", "%s %s %s" % (self.table["ctor"], poly(e.args[0]), poly(e.args[1]))
+        else:
+            ty, item = "poly", "pure " + poly(e)
+        sym = {"add": "+", "mul": "*"}.get(node.args[0].attr)
+        if sym is None:
+            raise TranslationError("%s: operator.%s" % (where, node.args[0].attr))
+        if ty == "zf":
+            key = (sym, "zf", "zf")
+            if key not in self.table:
+                raise TranslationError("%s: no translated dunder for %r between filters" % (where, sym))
+            f = self.table[key]
+        else:
+            f = "(fun a b => .ok (C07.%s a b))" % node.args[0].attr
+        return ty, "reduceGen %s (parts.map fun p => do\n  let filt ← p\n  %s)" % (f, item)
+
+    def t_cascade_polys(self):
+        for prop, lname in (("numpoly", "cascadeNumpoly"), ("denpoly", "cascadeDenpoly")):
+            where = "CascadeFilter." + prop
+            fn = self.method("CascadeFilter", prop)
+            self.plain(fn, ok=("property",))
+            (s,) = self.params(fn, 1)
+            body = self.nodoc(fn.body)
+            wrap = "%s"
+            if len(body) == 1 and isinstance(body[0], ast.Try):
+                tr = body[0]
+                h = tr.handlers[0] if len(tr.handlers) == 1 else None
+                ok = (h is not None and not tr.orelse and not tr.finalbody and isinstance(h.type, ast.Name) and h.type.id == "AttributeError"
+                      and len(h.body) == 1 and isinstance(h.body[0], ast.Raise) and h.body[0].cause is None
+                      and isinstance(h.body[0].exc, ast.Call) and isinstance(h.body[0].exc.func, ast.Name)
+                      and h.body[0].exc.func.id == "AttributeError")
+                if not ok:
+                    raise TranslationError("%s: the try statement is not `except AttributeError: raise AttributeError(..)`" % where)
+                body = self.nodoc(tr.body)
+                wrap = "reraiseAttribute (%s)"
+            if len(body) != 1 or not isinstance(body[0], ast.Return) or body[0].value is None:
+                raise TranslationError("%s is not one return statement (inside one try)" % where)
+            ty, term = self.reduce_gen(where, body[0].value, s)
+            if ty != "poly":
+                raise TranslationError("%s returns a filter" % where)
+            self.defs.append((lname, where, "/-- `%s`: %s -/\ndef %s %s : Except PyErr (MPoly α) :=\n%s"
+                              % (where, self.PARTS_DOC, lname, self.PARTS, ind(wrap % term, 2))))
+
+    def t_parallel_polys(self):
+        where = "ParallelFilter._sum_filter"
+        fn = self.method("ParallelFilter", "_sum_filter")
+        self.plain(fn)
+        (s,) = self.params(fn, 1)
+        body = self.nodoc(fn.body)
+        if len(body) != 1 or not isinstance(body[0], ast.Return) or body[0].value is None:
+            raise TranslationError("%s is not one return statement" % where)
+        ty, term = self.reduce_gen(where, body[0].value, s)
+        if ty != "zf":
+            raise TranslationError("%s does not return a filter" % where)
+        self.defs.append(("sumFilter", where, "/-- `%s`: %s -/\ndef sumFilter %s : Except PyErr (ALV.C05.ZF α) :=\n%s"
+                          % (where, self.PARTS_DOC, self.PARTS, ind(term, 2))))
+        for prop, lname in (("numpoly", "parallelNumpoly"), ("denpoly", "parallelDenpoly")):
+            where = "ParallelFilter." + prop
+            fn = self.method("ParallelFilter", prop)
+            self.plain(fn, ok=("property",))
+            (s,) = self.params(fn, 1)
+
+            def selfcall(node, name):
+                return (isinstance(node, ast.Call) and not node.args and not node.keywords and isinstance(node.func, ast.Attribute)
+                        and node.func.attr == name and isinstance(node.func.value, ast.Name) and node.func.value.id == s)
+
+            def atom(node):
+                return "linear" if selfcall(node, "is_linear") else None
+
+            body = self.nodoc(fn.body)
+            ok = (len(body) == 2 and isinstance(body[0], ast.If) and not body[0].orelse and len(body[0].body) == 1
+                  and isinstance(body[0].body[0], ast.Raise) and body[0].body[0].cause is None
+                  and isinstance(body[0].body[0].exc, ast.Call) and isinstance(body[0].body[0].exc.func, ast.Name)
+                  and body[0].body[0].exc.func.id in ERR
+                  and isinstance(body[1], ast.Return) and isinstance(body[1].value, ast.Attribute)
+                  and body[1].value.attr in ("numpoly", "denpoly") and selfcall(body[1].value.value, "_sum_filter"))
+            if not ok:
+                raise TranslationError("%s: not `if <test>: raise E(..)` followed by `return self._sum_filter().<poly>`" % where)
+            self.defs.append((lname, where,
+                              "/-- `%s`: `linear` = what `self.is_linear()` returns -/\ndef %s (linear : Bool) %s : Except PyErr (MPoly α) :=\n"
+                              "  if %s then\n    .error %s\n  else\n    do\n      let x1 ← sumFilter parts\n      pure x1.%s"
+                              % (where, lname, self.PARTS, self.boolop(where, body[0].test, atom), ERR[body[0].body[0].exc.func.id],
+                                 "num" if body[1].value.attr == "numpoly" else "den")))
+
+
     def run(self):
         self.t_properties()
         self.t_init()
@@ -808,13 +1036,17 @@ class Translator:
         self.t_rbinary()
         self.t_pow()
         self.t_subst()
+        self.t_fl_init()
+        self.t_fl_eq()
+        self.t_cascade_polys()
+        self.t_parallel_polys()
         return self.render()
 
     def render(self):
         head = ("/-\n  GENERATED by harness/props/c05_tr.py from audiolazy/lazy_filters.py of the repo under test — do not edit.\n"
                 "  One definition per (method, kind of argument), in the vocabulary of ALV/Model/C05.lean; the theorems\n"
                 "  ALV.Props.C05.src_*_is_model state that each equals the hand-written model function.\n-/\n"
-                "import ALV.Model.C05Vocab\nset_option linter.unusedVariables false\nnamespace ALV.Gen.C05\nopen ALV.C07 (MPoly PyErr)\nopen ALV.C05 (numTruediv sumTerms)\n"
+                "import ALV.Model.C05ListVocab\nset_option linter.unusedVariables false\nnamespace ALV.Gen.C05\nopen ALV.C07 (MPoly PyErr)\nopen ALV.C05 (numTruediv sumTerms Kind FL FLs Arg argTest extendItem extendTuple reduceGen reraiseAttribute)\n"
                 "variable {α : Type} [Add α] [Mul α] [Sub α] [Neg α] [Div α] [OfNat α 0] [OfNat α 1] [DecidableEq α]\n\n")
         tail = "\nend ALV.Gen.C05\n"
         return head + "\n\n".join(t for _, _, t in self.defs) + "\n" + tail
@@ -875,6 +1107,23 @@ EDITS = [
     ("__rbinary__: operands not swapped", "      return op_func(cls([other]), self)", "      return op_func(self, cls([other]))"),
     ("__call__: substitution with seq ** k", "      return sum(v * seq ** -k for k, v in self.numpoly.terms()) / \\\n",
      "      return sum(v * seq ** k for k, v in self.numpoly.terms()) / \\\n"),
+    ("FilterList.__init__: the lone argument is unpacked even when callable", "    if len(filters) == 1 and not callable(filters[0]) \\\n",
+     "    if len(filters) == 1 and callable(filters[0]) \\\n"),
+    ("FilterList.__init__: unpacking rule applied to two arguments", "    if len(filters) == 1 and not callable(filters[0])", "    if len(filters) == 2 and not callable(filters[0])"),
+    ("FilterList.__init__: and -> or", "                         and isinstance(filters[0], Iterable):\n", "                         or isinstance(filters[0], Iterable):\n"),
+    ("FilterList.__eq__: the kind test dropped", "    return type(self) == type(other) and list.__eq__(self, other)\n", "    return list.__eq__(self, other)\n"),
+    ("FilterList.__ne__: or -> and", "    return type(self) != type(other) or list.__ne__(self, other)\n",
+     "    return type(self) != type(other) and list.__ne__(self, other)\n"),
+    ("CascadeFilter.numpoly: product of the denominators", "      return reduce(operator.mul, (filt.numpoly for filt in self.callables))\n",
+     "      return reduce(operator.mul, (filt.denpoly for filt in self.callables))\n"),
+    ("CascadeFilter.denpoly: operator.add", "      return reduce(operator.mul, (filt.denpoly for filt in self.callables))\n",
+     "      return reduce(operator.add, (filt.denpoly for filt in self.callables))\n"),
+    ("ParallelFilter._sum_filter: the shape before the repair of D22 (reduce over the raw elements)",
+     "    return reduce(operator.add, (ZFilter(filt.numpoly, filt.denpoly)\n                                 for filt in self.callables))\n",
+     "    return reduce(operator.add, self)\n"),
+    ("ParallelFilter._sum_filter: numerator and denominator swapped", "(ZFilter(filt.numpoly, filt.denpoly)\n", "(ZFilter(filt.denpoly, filt.numpoly)\n"),
+    ("ParallelFilter.numpoly: the linearity test negated", "    if not self.is_linear():\n      raise AttributeError(\"Non-linear filter\")\n    return self._sum_filter().numpoly\n",
+     "    if self.is_linear():\n      raise AttributeError(\"Non-linear filter\")\n    return self._sum_filter().numpoly\n"),
     ("__mul__: an untranslatable statement (a loop)", "    return ZFilter(self.numpoly * other, self.denpoly)\n",
      "    for k in range(2):\n      pass\n    return ZFilter(self.numpoly * other, self.denpoly)\n"),
 ]
